@@ -23,8 +23,15 @@ def strip_comments(s):
     return s
 
 
+# an integer literal: hex / binary / octal / decimal, digit separators, optional type suffix
+INT = r"(?:0[xX][0-9a-fA-F_]+|0[bB][01_]+|0[oO][0-7_]+|\d[\d_]*)(?:_?(?:u8|u16|u32|u64|u128|usize|i8|i16|i32|i64|i128|isize))?"
+
+
 def num(tok):
+    tok = re.sub(r"_?(?:u8|u16|u32|u64|u128|usize|i8|i16|i32|i64|i128|isize)$", "", tok)
     tok = tok.replace("_", "")
+    if re.fullmatch(r"0\d+", tok):
+        tok = tok.lstrip("0") or "0"      # a decimal literal with leading zeros (Rust reads it as decimal)
     return int(tok, 0)
 
 
@@ -42,7 +49,7 @@ def translate(repo):
         body = m.group(1)
         entries = [e.strip() for e in body.split(",") if e.strip()]
         for e in entries:
-            mm = re.fullmatch(r"(\w+)\s*=>\s*(0[xX][0-9a-fA-F_]+|\d+)", e)
+            mm = re.fullmatch(r"(\w+)\s*=>\s*(%s)" % INT, e)
             if not mm:
                 bad.append("boxtype! entry: " + e)
                 table = []
@@ -87,7 +94,7 @@ def translate(repo):
         mm = re.search(r"pub enum %s\s*\{(.*?)\}" % ename, types_rs, flags=re.S)
         if mm:
             for item in [x.strip() for x in mm.group(1).split(",") if x.strip()]:
-                im = re.fullmatch(r"(\w+)\s*=\s*(0[xX][0-9a-fA-F_]+|\d+)", item)
+                im = re.fullmatch(r"(\w+)\s*=\s*(%s)" % INT, item)
                 if not im:
                     bad.append("enum %s item: %s" % (ename, item))
                     e["discr"] = []
@@ -104,7 +111,7 @@ def translate(repo):
             arms = [x.strip() for x in mm.group(1).split(",") if x.strip()]
             ok = True
             for a in arms:
-                am = re.fullmatch(r"(0[xX][0-9a-fA-F_]+|\d+)\s*=>\s*Ok\(%s::(\w+)\)" % ename, a)
+                am = re.fullmatch(r"(%s)\s*=>\s*Ok\(%s::(\w+)\)" % (INT, ename), a)
                 if am:
                     e["tryfrom"].append([num(am.group(1)), am.group(2)])
                 elif re.fullmatch(r"_\s*=>\s*Err\(Error::InvalidData\(\"[^\"]*\"\)\)", a):
@@ -116,6 +123,8 @@ def translate(repo):
                 e["tryfrom"] = []
         else:
             bad.append("TryFrom for " + ename)
+        e["discr"].sort(key=lambda x: x[1])
+        e["tryfrom"].sort(key=lambda x: x[0])
         enums[ename] = e
     out["enums"] = enums
 
@@ -124,14 +133,15 @@ def translate(repo):
     mm = re.search(r"pub fn freq\(&self\)\s*->\s*u32\s*\{\s*match \*self\s*\{(.*?)\}", types_rs, flags=re.S)
     if mm:
         for a in [x.strip() for x in mm.group(1).split(",") if x.strip()]:
-            am = re.fullmatch(r"SampleFreqIndex::(\w+)\s*=>\s*(\d+)", a)
+            am = re.fullmatch(r"SampleFreqIndex::(\w+)\s*=>\s*(%s)" % INT, a)
             if not am:
                 bad.append("freq arm: " + a)
                 freq = []
                 break
-            freq.append([am.group(1), int(am.group(2))])
+            freq.append([am.group(1), num(am.group(2))])
     else:
         bad.append("SampleFreqIndex::freq")
+    freq.sort(key=lambda x: -x[1])
     out["freq"] = freq
 
     # --- TrackType handler codes -----------------------------------------------
@@ -182,7 +192,7 @@ def translate(repo):
     if mm:
         body = mm.group(1)
         m1 = re.search(
-            r"let profile = value\.0;\s*let constraint_set1_flag = \(value\.1 & (0[xX][0-9a-fA-F]+|\d+)\) >> (\d+);\s*match \(profile, constraint_set1_flag\)\s*\{(.*?)\}",
+            r"let profile = value\.0;\s*let constraint_set1_flag = \(value\.1 & (%s)\) >> (\d+);\s*match \(profile, constraint_set1_flag\)\s*\{(.*?)\}" % INT,
             body,
             flags=re.S,
         )
